@@ -1,5 +1,6 @@
 import EV.Driver.Util
 import EV.Model.Script
+import EV.Driver.C16Asm
 namespace EV.Driver.C16
 open EV EV.Driver EV.Script
 
@@ -147,5 +148,7 @@ def newscriptOp : Handler
 def ops : List (String × Handler) :=
   [("build", buildOp), ("instr", instrOp), ("scriptint", scriptintOp), ("scriptbool", scriptboolOp),
    ("readuint", readuintOp), ("tmpl", tmplOp), ("tmplscan", tmplscanOp), ("payloadspk", spkOp),
-   ("newscript", newscriptOp)]
+   ("newscript", newscriptOp)] ++
+  -- opcode classification / names, asm and the other text forms, script-number boundaries (EV.Driver.C16Asm)
+  C16Asm.ops
 end EV.Driver.C16
